@@ -11,8 +11,7 @@ LEVEL = "exploration"
 RULE = ("Hypothesis: programs of 1-8 editing commands (operator x motion incl. doubled operators, x X D C s S Y p P J r ~, i a I A o O with typed text "
         "containing ^H ^W ^U ^V and newlines, counts before and after the operator, register prefixes a-z A-Z 0-9) mixed with motions, on the C07 "
         "text family incl. empty buffers and lines; observed: written file, cursor marker, and a dump of every register touched (put at the end of "
-        "the buffer); compared with models/vim.py.  Non-trivial = program has a multi-line region, an inclusive motion or a count overrunning the "
-        "line, and a register later revealed by a put; distinct by SHA-1 of the case")
+        "the buffer); compared with models/vim.py.  Non-trivial = at least two of: an operator over a multi-line region; an inclusive motion or a count overrunning the line; a put of a register that an earlier command of the same program wrote (all three are counted separately in coverage.classes); distinct by SHA-1 of the case")
 ASSUMPTIONS = ["autoindent on or off per case; the reference models the line editor incl. ^H ^W ^U ^V ^T ^D and autoindent carry-over", "left-to-right text", "calibrations of the reference: any line-wise or "
                "multi-line store into the unnamed or a letter register rotates 1-9; a named register does not also set the unnamed one; o/O/p/P on an empty "
                "buffer first create an empty line; upper-case names are write-only (append)"]
@@ -80,8 +79,16 @@ def command(draw):
 
 @st.composite
 def case(draw):
+    cmds = draw(st.lists(command(), min_size=1, max_size=8))
+    # most puts read a register that an earlier command of the same program wrote (the interaction the property is about)
+    touched = []
+    for x in cmds:
+        if x["k"] == "put" and touched and draw(st.integers(0, 3)) != 0:
+            x["reg"] = draw(st.sampled_from(touched))
+        if (x["k"] == "op" and x["op"] in "dcy") or (x["k"] == "short" and x["key"] in "xXDYCsS"):
+            touched.append((x["reg"] or "").lower())
     return {"lines": draw(st.lists(line, max_size=8)), "row": draw(st.integers(0, 7)), "off": draw(st.integers(0, 8)),
-            "cmds": draw(st.lists(command(), min_size=1, max_size=8)), "ai": draw(st.booleans())}
+            "cmds": cmds, "ai": draw(st.booleans())}
 
 
 def strategy(tier):
@@ -217,7 +224,7 @@ def run_case(env, c):
     runner.write_file(d, "f", gen.to_bytes(c["lines"]))
     stdin = (keys + "\x1b\x1b:se noai\ni" + viutil.MARK + "\x1b" + dump + "\x1b:%w! out\n").encode("utf-8") + runner.VI_TRAILER
     r = runner.run_editor(env.paths["vi"], ["-v", "f"], stdin, d, rows=24, cols=100, want_stats=False)
-    nt = info["multiline"] and info["inclusive"] and info["revealed"]
+    nt = sum(bool(info[k]) for k in ("multiline", "inclusive", "revealed")) >= 2
     cl = [k for k in ("multiline", "inclusive", "revealed") if info[k]]
     if r.timeout:
         return Outcome(True, False, cl + ["timeout"], inconclusive=True)
